@@ -20,6 +20,8 @@ TRUSTED = [
     "axioms: propext, Classical.choice, Quot.sound only (audited per theorem with #print axioms); no native_decide/bv_decide/sorry",
     "Mathlib v4.33.0 single modules imported by the proof files",
     "the hand-written Lean model of the anchored code (QsModel/*.lean), tied to /repo by the differential correspondence of this run",
+    "harness/translate.py (Python AST -> Lean by symbolic execution) for the functions under the structural tie; its reading of Python "
+    "arithmetic on the field carrier (ints and floats as field elements, decimal literals as written)",
     "the Python harness: generators, canonicalisation, comparison rule (DESIGN.md 3.3), the compiled qsdriver",
     "pandas/NumPy/CPython behaviour is modelled, not verified (DESIGN.md 9)",
 ]
@@ -58,7 +60,7 @@ def strip_comments(src):
 
 def grep_forbidden():
     hits = []
-    for sub in ('QsModel', 'QsProofs'):
+    for sub in ('QsModel', 'QsProofs', 'QsGen'):
         for root, _, files in os.walk(os.path.join(LEAN_DIR, sub)):
             for fn in files:
                 if not fn.endswith('.lean'):
@@ -84,15 +86,37 @@ def audit(prop, tier):
         res['failed'] = ['no theorem registered for %s' % prop]
         res['obligations'] = 1
         return res
-    modules = ent.get('modules') or [ent['module']]
+    modules = list(ent.get('modules') or [ent['module']])
+    thms = list(ent['theorems'])
+    lock = _lock()
+    try:
+        # structural tie: translate the kernels from /repo's working tree and check `Gen.f = Qs.f`
+        import tie
+        ties, tie_log = tie.run_ties(prop)
+        pt = tie.for_property(prop, ties)
+    except Infra:
+        lock.close()
+        raise
+    res['structural_tie'] = dict(proved=[x['key'] for x in pt['proved']], failed=[x['key'] for x in pt['failed']],
+                                 not_applicable=[dict(key=x['key'], reason=x.get('reason')) for x in pt['untranslatable']])
+    for x in pt['proved']:
+        thms.append(x['theorem'])
+    for m_ in pt['modules']:
+        if m_ not in modules:
+            modules.append(m_)
     module = ' '.join(modules)
-    thms = ent['theorems']
-    res['obligations'] = len(thms)
+    res['obligations'] = len(thms) + len(pt['failed'])
     res['theorems'] = thms
+    for x in pt['failed']:
+        res['failed'].append('structural tie %s: `%s` as translated from %s no longer equals the model (theorem %s does not check)' % (
+            x['key'], x['python'], x['file'], x['theorem']))
+    if pt['untranslatable']:
+        res['assumptions'].append('structural tie not applicable to the current form of: %s (outside the translator\'s subset); '
+                                  'these functions are tied by the correspondence check only' % ', '.join(sorted(set(
+                                      '%s (%s)' % (x.get('python') or x['key'], x.get('reason')) for x in pt['untranslatable']))))
     res['checker_cmd'] = 'cd lean && lake build %s && lake env lean <audit file with #print axioms for each theorem>' % module
     if ent.get('partial'):
         res['assumptions'].append('partial theorems: %s' % json.dumps(ent['partial']))
-    lock = _lock()
     try:
         try:
             b = subprocess.run(['lake', 'build'] + modules + ['qsdriver'], cwd=LEAN_DIR, capture_output=True, text=True, timeout=1500)
